@@ -248,6 +248,23 @@ def run(ctx: Ctx) -> Result:
             excusable = any(c is None for c in cands) or any(c is not None and not isinstance(c, bool) and not fits(c) for c in cands)
             if not excusable:
                 viol(name, {'a': str(a)[:80], 'b': str(b)[:80], 'script': script.hex()[:400]}, 'the exact integer result (it fits the item limit)', f['status'])
+    # instructions that *produce* integers from lengths / counts use the same signed encoding (SIZE, DEPTH)
+    for n in sorted({0, 1, 2, 126, 127, 128, 129, 200, 254, 255, 256, 257, 511, 512, 1000, 1023, 1024} | {irng.randrange(0, 1025) for _ in range(ctx.n(20, 200))}):
+        script = G.push(bytes([7]) * n) + bytes([N['SIZE']]) if n else bytes([N['PUSH1'], 0, N['SIZE']])
+        o = vmrun.run_impl(cfg, {}, script)
+        run_lines.append(vmrun.case_line('RUN', cfg, {}, [script])); run_outs.append(o)
+        res.note_case(('intop', 'SIZE', n)); nops += 1
+        f = vmrun.fields(o); top = f.get('stack', '-').split(',')[-1]
+        if f['status'] != 'OK' or top in ('-', 'e') or bytes.fromhex(top) != ref_i2b(n):
+            viol('SIZE', {'item_length': n, 'script': script.hex()[:80]}, 'the length as a signed integer: ' + ref_i2b(n).hex(), f['status'] + ' stack top ' + top[:40])
+    for n in (0, 1, 127, 128, 129, 255, 256, 300):
+        script = bytes([N['TRUE']]) * n + bytes([N['DEPTH']])
+        o = vmrun.run_impl(cfg, {}, script)
+        run_lines.append(vmrun.case_line('RUN', cfg, {}, [script])); run_outs.append(o)
+        res.note_case(('intop', 'DEPTH', n)); nops += 1
+        f = vmrun.fields(o); top = f.get('stack', '-').split(',')[-1]
+        if f['status'] != 'OK' or top in ('-', 'e') or bytes.fromhex(top) != ref_i2b(n):
+            viol('DEPTH', {'items': n}, 'the count as a signed integer: ' + ref_i2b(n).hex(), f['status'] + ' stack top ' + top[:40])
     res.stats['integer_instruction_cases'] = nops
     if ctx.driver.available and run_lines:
         try:
